@@ -334,8 +334,9 @@ func (sp *Specs) loadFile(path string, commentOnly bool) error {
 				}
 				callee = gs[0]
 				if i := strings.LastIndex(callee, "#"); i >= 0 {
-					k, err = strconv.Atoi(callee[i+1:])
-					if err != nil {
+					if callee[i+1:] == "*" {
+						k = -1 // every call site of that callee
+					} else if k, err = strconv.Atoi(callee[i+1:]); err != nil {
 						return fail(err)
 					}
 					callee = callee[:i]
